@@ -166,6 +166,38 @@ theorem C43_float_delta_range (d a w : Rat) (hw : rn w = w) (h0 : w ≠ 0) :
 
 example : rn 360 = 360 ∧ wrap1F (mkRat (-6646139978924579) (2 ^ 119)) 360 = 360 := by decide +kernel
 
+/-! ## arguments of any numeric type (int, bool, Fraction, float mixed) -/
+
+/-- **No wrapping, whatever the type**: with a wrap of zero the angle comes back as the very same
+exact number — no conversion to float happens (an int above `2^53` or a Fraction like `1/3`
+survives), and `delta` returns the difference it formed. -/
+theorem C43_typed_wrap_zero_id (fa fw fd : Bool) (a d : Rat) :
+    wrap1T fa fw a 0 = a ∧ wrap2T a 0 = a ∧
+    deltaT fd fa d a 0 = (if fd || fa then rn (rn d - rn a) else d - a) := by
+  simp [wrap1T, wrap2T, deltaT]
+
+example : wrap2T (1 / 3) 0 = 1 / 3 ∧ wrap2T 9007199254740993 0 = 9007199254740993 ∧
+    rn (1 / 3) ≠ 1 / 3 ∧ rn 9007199254740993 ≠ 9007199254740993 := by decide +kernel
+
+/-- without a float among the arguments `wrap1` is the exact function of the theorems above -/
+theorem C43_typed_wrap1_exact (a w : Rat) : wrap1T false false a w = wrap1 a w := by
+  simp [wrap1T, wrap1]
+
+/-- with binary64 arguments the typed functions are the binary64 instantiation; a non-float angle
+given to `wrap2` is first converted (`rn`) -/
+theorem C43_typed_float (fa fw : Bool) (a w : Rat) (hw : rn w = w) :
+    (rn a = a → (fa || fw) = true → wrap1T fa fw a w = wrap1F a w) ∧
+    (w ≠ 0 → wrap2T a w = wrap2F (rn a) w) := by
+  constructor
+  · intro ha hf; simp [wrap1T, wrap1F, hf, ha, hw]
+  · intro h0; simp [wrap2T, wrap2F, hw, h0]
+
+/-- hence the closed range also for `wrap2` of an int / Fraction angle and a binary64 wrap -/
+theorem C43_typed_wrap2_range (a w : Rat) (hw : rn w = w) (h0 : w ≠ 0) :
+    -(pabs w) ≤ wrap2T a w ∧ wrap2T a w ≤ pabs w := by
+  rw [(C43_typed_float false false a w hw).2 h0]
+  exact C43_float_wrap2_range (rn a) w hw h0
+
 /-- Proved part: where no rounding occurs (`floatDiffers = false`, the region predicate of D43a)
 the binary64 results ARE the exact results, so every theorem of this file applies to them. -/
 theorem C43_float_agrees_partial (d a w : Rat) (H : floatDiffers d a w = false) :
